@@ -9,24 +9,42 @@
 //! (A) single operations: generate_method (scope x fragment x key type) and purge_method (target shape) on
 //!     CoreDocument and IotaDocument, each on a document that also holds a storage-backed bystander method with
 //!     a relationship reference, an unbacked method, a reference to it and a service.
-//! (B) histories: every sequence (length <= 3 quick / <= 4 thorough) over an 8-letter alphabet of
+//! (B) histories: every sequence (length <= 4 quick / <= 5 thorough) over an 8-letter alphabet of
 //!     generate / attach-reference / purge / create_jws operations, every subset of failing calls over the WHOLE
 //!     history, oracle after every operation.
 //!
-//! (C) cycles: every sequence (length <= 4 quick / <= 6 thorough) over generate / attach / purge / sign of ONE
+//! (C) cycles: every sequence (length <= 5 quick / <= 6 thorough) over generate / attach / purge / sign of ONE
 //!     general method, same fault enumeration (repeated generate-purge cycles with faults anywhere).
+//!
+//! (D) histories (length <= 3 quick / <= 4 thorough) over a second 8-letter alphabet: the same fragment generated
+//!     embedded and general, a kid-named embedded method, purge by the same fragment under another DID,
+//!     create_credential_jwt.
+//!
+//! Part (A) runs every scenario once per injected error kind (Unavailable, Unspecified, RetryableIOFailure: kinds
+//! that say "the operation did not take place"; the *NotFound / AlreadyExists kinds are statements about the
+//! store's content and are never injected, a caller may legitimately act on them).
+//!
+//! What is NOT judged (executed, recorded in the outcome histogram): the error variant returned; Ok for a purge
+//! target that is absent or has no key id / key (the statement speaks about storage-backed methods) beyond
+//! "method and references gone, nothing else touched"; the IotaDocument metadata; generate on a fragment carried
+//! by a dangling reference; create_jws / create_credential_jwt / create_presentation_jwt under faults beyond
+//! "observable state unchanged"; the order of methods and references.
 //!
 //! Oracle (from the property statement): observable state S = (methods with their scope, relationship
 //! references, rest of the document, live key ids, digest -> key id map).
 //!   Ok                         => complete (method resolves in the requested scope, one new key, its key id recorded
 //!                                 under the method's digest, create_jws with it verifies; after purge all three and
 //!                                 all references gone) and nothing else changed;
-//!   Err(UndoOperationFailed)   => exempt (counted), the execution stops there;
+//!   Err(UndoOperationFailed)   => exempt (counted), the execution stops there - provided at least one storage call of
+//!                                 the operation failed (injected or natively); a failed-undo report although every
+//!                                 storage call succeeded is judged like any other Err;
 //!   any other Err              => S_after == S_before (order-insensitive).
 
 use async_trait::async_trait;
+use identity_core::common::{Object, Url};
 use identity_core::convert::{FromJson, ToJson};
-use identity_credential::credential::Jws;
+use identity_credential::credential::{Credential, CredentialBuilder, Jws, Jwt, Subject};
+use identity_credential::presentation::{JwtPresentationOptions, Presentation, PresentationBuilder};
 use identity_did::DIDUrl;
 use identity_document::document::CoreDocument;
 use identity_document::verifiable::JwsVerificationOptions;
@@ -62,6 +80,9 @@ enum Scp {
   Vm,
   Auth,
   Assert,
+  KeyAgr,
+  CapDel,
+  CapInv,
 }
 /// Fragment passed to generate_method.
 #[derive(Serialize, Deserialize, Debug, Clone, Copy, PartialEq, Eq, Hash)]
@@ -78,6 +99,8 @@ enum Fr {
   Dangling,
   /// a fragment that cannot be part of a DID URL
   Invalid,
+  /// "b<n>": no leading '#'
+  Bare(u8),
 }
 #[derive(Serialize, Deserialize, Debug, Clone, Copy, PartialEq, Eq, Hash)]
 enum Kt {
@@ -95,6 +118,12 @@ enum Tg {
   /// "#undec": in base 1 a general method whose publicKeyMultibase cannot be decoded
   Undec,
   Absent,
+  /// "#svc": the id of the service of every base document (names no method)
+  Svc,
+  /// "#k<n>" of ANOTHER DID of the same method
+  Foreign(u8),
+  /// "#a<n>": a harness-made copy of a method (see `Op::Alias`)
+  Alias(u8),
 }
 #[derive(Serialize, Deserialize, Debug, Clone, Copy, PartialEq, Eq, Hash)]
 enum Op {
@@ -104,6 +133,12 @@ enum Op {
   Attach { target: Tg, rel: u8 },
   /// create_jws + verify_jws
   Sign { target: Tg },
+  /// create_credential_jwt (`pres` = false) / create_presentation_jwt (`pres` = true)
+  SignVc { target: Tg, pres: bool },
+  /// SETUP ONLY, done by the harness behind the API: a second general method "#a<to>" with the same JWK as `from`,
+  /// its digest recorded under the SAME key id (two methods sharing one key id; outside the property's quantifier:
+  /// such executions are judged per operation, the final-state consistency oracle is off)
+  Alias { from: Tg, to: u8 },
 }
 #[derive(Serialize, Deserialize, Debug, Clone, PartialEq, Eq, Hash)]
 struct Scenario {
@@ -114,6 +149,9 @@ struct Scenario {
   setup: Vec<Op>,
   /// executed with every call occurrence a fault choice point
   ops: Vec<Op>,
+  /// error kind of the injected faults: 0 Unavailable, 1 Unspecified, 2 RetryableIOFailure
+  #[serde(default)]
+  kind: u8,
 }
 #[derive(Serialize, Deserialize, Debug, Clone)]
 struct Case {
@@ -138,20 +176,31 @@ fn scope_of(s: Scp) -> (MethodScope, &'static str) {
     Scp::Vm => (MethodScope::VerificationMethod, "verificationMethod"),
     Scp::Auth => (MethodScope::VerificationRelationship(MethodRelationship::Authentication), "authentication"),
     Scp::Assert => (MethodScope::VerificationRelationship(MethodRelationship::AssertionMethod), "assertionMethod"),
+    Scp::KeyAgr => (MethodScope::VerificationRelationship(MethodRelationship::KeyAgreement), "keyAgreement"),
+    Scp::CapDel => (MethodScope::VerificationRelationship(MethodRelationship::CapabilityDelegation), "capabilityDelegation"),
+    Scp::CapInv => (MethodScope::VerificationRelationship(MethodRelationship::CapabilityInvocation), "capabilityInvocation"),
   }
 }
 
 // ------------------------------------------------------------------------------------------------ fault injection
 
+/// Per-label call statistics of the whole run: (calls made while armed, injected failures, native failures).
+static CALL_STATS: Mutex<BTreeMap<&'static str, (u64, u64, u64)>> = Mutex::new(BTreeMap::new());
+
 struct Ctl<'c, 'p> {
   ch: RefCell<&'c mut Chooser<'p>>,
   armed: Cell<bool>,
-  /// calls made during the current armed operation: (label, failed)
+  /// error kind of injected faults (see `Scenario::kind`)
+  kind: u8,
+  /// calls made during the current armed operation: (label, failed by injection)
   calls: RefCell<Vec<(&'static str, bool)>>,
+  /// labels of the calls of the current armed operation that the REAL store answered with an error
+  native: RefCell<Vec<&'static str>>,
   /// every key id the real key store ever handed out
   issued: RefCell<Vec<KeyId>>,
   /// every digest that was ever passed to the key-id store
   digests: RefCell<Vec<MethodDigest>>,
+  stats: RefCell<BTreeMap<&'static str, (u64, u64, u64)>>,
 }
 impl<'c, 'p> Ctl<'c, 'p> {
   /// One call occurrence = one binary choice point (only while armed).
@@ -161,7 +210,19 @@ impl<'c, 'p> Ctl<'c, 'p> {
     }
     let f = self.ch.borrow_mut().flag(label);
     self.calls.borrow_mut().push((label, f));
+    let mut st = self.stats.borrow_mut();
+    let e = st.entry(label).or_insert((0, 0, 0));
+    e.0 += 1;
+    e.1 += f as u64;
     f
+  }
+  /// Pass a result of the real store through, noting a native failure.
+  fn real<T, E>(&self, label: &'static str, r: Result<T, E>) -> Result<T, E> {
+    if self.armed.get() && r.is_err() {
+      self.native.borrow_mut().push(label);
+      self.stats.borrow_mut().entry(label).or_insert((0, 0, 0)).2 += 1;
+    }
+    r
   }
   fn saw(&self, d: &MethodDigest) {
     let mut v = self.digests.borrow_mut();
@@ -169,26 +230,36 @@ impl<'c, 'p> Ctl<'c, 'p> {
       v.push(d.clone());
     }
   }
+  fn kerr(&self) -> KeyStorageError {
+    let kind = match self.kind {
+      0 => KeyStorageErrorKind::Unavailable,
+      1 => KeyStorageErrorKind::Unspecified,
+      _ => KeyStorageErrorKind::RetryableIOFailure,
+    };
+    KeyStorageError::new(kind).with_custom_message("injected fault")
+  }
+  fn ierr(&self) -> KeyIdStorageError {
+    let kind = match self.kind {
+      0 => KeyIdStorageErrorKind::Unavailable,
+      1 => KeyIdStorageErrorKind::Unspecified,
+      _ => KeyIdStorageErrorKind::RetryableIOFailure,
+    };
+    KeyIdStorageError::new(kind).with_custom_message("injected fault")
+  }
 }
 
 struct FaultyJwk<'c, 'p> {
   inner: JwkMemStore,
   ctl: Rc<Ctl<'c, 'p>>,
 }
-fn kerr() -> KeyStorageError {
-  KeyStorageError::new(KeyStorageErrorKind::Unavailable).with_custom_message("injected fault")
-}
-fn ierr() -> KeyIdStorageError {
-  KeyIdStorageError::new(KeyIdStorageErrorKind::Unavailable).with_custom_message("injected fault")
-}
 
 #[async_trait(?Send)]
 impl<'c, 'p> JwkStorage for FaultyJwk<'c, 'p> {
   async fn generate(&self, key_type: KeyType, alg: JwsAlgorithm) -> KeyStorageResult<JwkGenOutput> {
     if self.ctl.fail("K.generate") {
-      return Err(kerr());
+      return Err(self.ctl.kerr());
     }
-    let out = self.inner.generate(key_type, alg).await;
+    let out = self.ctl.real("K.generate", self.inner.generate(key_type, alg).await);
     if let Ok(o) = &out {
       self.ctl.issued.borrow_mut().push(o.key_id.clone());
     }
@@ -196,9 +267,9 @@ impl<'c, 'p> JwkStorage for FaultyJwk<'c, 'p> {
   }
   async fn insert(&self, jwk: Jwk) -> KeyStorageResult<KeyId> {
     if self.ctl.fail("K.insert") {
-      return Err(kerr());
+      return Err(self.ctl.kerr());
     }
-    let out = self.inner.insert(jwk).await;
+    let out = self.ctl.real("K.insert", self.inner.insert(jwk).await);
     if let Ok(k) = &out {
       self.ctl.issued.borrow_mut().push(k.clone());
     }
@@ -206,21 +277,21 @@ impl<'c, 'p> JwkStorage for FaultyJwk<'c, 'p> {
   }
   async fn sign(&self, key_id: &KeyId, data: &[u8], public_key: &Jwk) -> KeyStorageResult<Vec<u8>> {
     if self.ctl.fail("K.sign") {
-      return Err(kerr());
+      return Err(self.ctl.kerr());
     }
-    self.inner.sign(key_id, data, public_key).await
+    self.ctl.real("K.sign", self.inner.sign(key_id, data, public_key).await)
   }
   async fn delete(&self, key_id: &KeyId) -> KeyStorageResult<()> {
     if self.ctl.fail("K.delete") {
-      return Err(kerr());
+      return Err(self.ctl.kerr());
     }
-    self.inner.delete(key_id).await
+    self.ctl.real("K.delete", self.inner.delete(key_id).await)
   }
   async fn exists(&self, key_id: &KeyId) -> KeyStorageResult<bool> {
     if self.ctl.fail("K.exists") {
-      return Err(kerr());
+      return Err(self.ctl.kerr());
     }
-    self.inner.exists(key_id).await
+    self.ctl.real("K.exists", self.inner.exists(key_id).await)
   }
 }
 
@@ -233,23 +304,23 @@ impl<'c, 'p> KeyIdStorage for FaultyKeyId<'c, 'p> {
   async fn insert_key_id(&self, method_digest: MethodDigest, key_id: KeyId) -> KeyIdStorageResult<()> {
     self.ctl.saw(&method_digest);
     if self.ctl.fail("I.insert_key_id") {
-      return Err(ierr());
+      return Err(self.ctl.ierr());
     }
-    self.inner.insert_key_id(method_digest, key_id).await
+    self.ctl.real("I.insert_key_id", self.inner.insert_key_id(method_digest, key_id).await)
   }
   async fn get_key_id(&self, method_digest: &MethodDigest) -> KeyIdStorageResult<KeyId> {
     self.ctl.saw(method_digest);
     if self.ctl.fail("I.get_key_id") {
-      return Err(ierr());
+      return Err(self.ctl.ierr());
     }
-    self.inner.get_key_id(method_digest).await
+    self.ctl.real("I.get_key_id", self.inner.get_key_id(method_digest).await)
   }
   async fn delete_key_id(&self, method_digest: &MethodDigest) -> KeyIdStorageResult<()> {
     self.ctl.saw(method_digest);
     if self.ctl.fail("I.delete_key_id") {
-      return Err(ierr());
+      return Err(self.ctl.ierr());
     }
-    self.inner.delete_key_id(method_digest).await
+    self.ctl.real("I.delete_key_id", self.inner.delete_key_id(method_digest).await)
   }
 }
 
@@ -259,6 +330,9 @@ type Store<'c, 'p> = Storage<FaultyJwk<'c, 'p>, FaultyKeyId<'c, 'p>>;
 
 const CORE_DID: &str = "did:bar:Hyx62wPQGyvXCoihZq1BrbUjBRh2LuNxWiiqMkfAuSZr";
 const IOTA_DID: &str = "did:iota:tst:0xdfda8bcfb959c3e6ef261343c3e1a8310e9c8294eeafee326a4e96d65dbeaca0";
+/// Other DIDs of the same methods (targets `Tg::Foreign`).
+const CORE_OTHER_DID: &str = "did:bar:4uQeVj5tqViQh7yWWGStvkEG1Zmhx6uasJtWCJziofM";
+const IOTA_OTHER_DID: &str = "did:iota:tst:0x0000000000000000000000000000000000000000000000000000000000000001";
 
 fn base_core_json(did: &str, base: u8) -> Value {
   let mut vm = vec![json!({"id": format!("{did}#root"), "controller": did, "type": "Ed25519VerificationKey2018",
@@ -288,6 +362,8 @@ fn base_core_json(did: &str, base: u8) -> Value {
 trait TestDoc: JwkDocumentExt + Sized {
   fn build(base: u8) -> Self;
   fn did_str() -> &'static str;
+  fn other_did_str() -> &'static str;
+  fn insert(&mut self, method: VerificationMethod, scope: MethodScope) -> bool;
   fn json(&self) -> Value;
   fn attach(&mut self, id: &DIDUrl, rel: MethodRelationship) -> Result<bool, String>;
   fn verify(&self, jws: &Jws) -> Result<(), String>;
@@ -299,6 +375,12 @@ impl TestDoc for CoreDocument {
   }
   fn did_str() -> &'static str {
     CORE_DID
+  }
+  fn other_did_str() -> &'static str {
+    CORE_OTHER_DID
+  }
+  fn insert(&mut self, method: VerificationMethod, scope: MethodScope) -> bool {
+    self.insert_method(method, scope).is_ok()
   }
   fn json(&self) -> Value {
     self.to_json_value().expect("document serialises")
@@ -320,6 +402,12 @@ impl TestDoc for IotaDocument {
   }
   fn did_str() -> &'static str {
     IOTA_DID
+  }
+  fn other_did_str() -> &'static str {
+    IOTA_OTHER_DID
+  }
+  fn insert(&mut self, method: VerificationMethod, scope: MethodScope) -> bool {
+    self.insert_method(method, scope).is_ok()
   }
   fn json(&self) -> Value {
     self.to_json_value().expect("document serialises")
@@ -345,8 +433,10 @@ struct Obs {
   duplicate_ids: BTreeSet<String>,
   /// (relationship, referenced id)
   refs: BTreeSet<(String, String)>,
-  /// the document (and, for IotaDocument, its metadata) without the six method arrays
+  /// the (core) document without the six method arrays
   rest: Value,
+  /// what an IotaDocument serialises besides the core document (its metadata); recorded, never judged
+  meta: Value,
   services: BTreeSet<String>,
   keys: BTreeSet<String>,
   key_count: usize,
@@ -364,8 +454,12 @@ fn digest_of_json(method_json: &str) -> Option<MethodDigest> {
 }
 
 fn observe<D: TestDoc>(doc: &D, st: &Store, ctl: &Ctl) -> Obs {
-  let mut rest = doc.json();
-  let core: &mut Value = if rest.get("doc").is_some() { &mut rest["doc"] } else { &mut rest };
+  let mut meta = doc.json();
+  let mut rest = match meta.as_object_mut().and_then(|o| o.remove("doc")) {
+    Some(core) => core,
+    None => std::mem::replace(&mut meta, Value::Null),
+  };
+  let core: &mut Value = &mut rest;
   let mut methods = BTreeMap::new();
   let mut duplicate_ids = BTreeSet::new();
   let mut refs = BTreeSet::new();
@@ -415,6 +509,7 @@ fn observe<D: TestDoc>(doc: &D, st: &Store, ctl: &Ctl) -> Obs {
     duplicate_ids,
     refs,
     rest,
+    meta,
     services,
     keys,
     key_count: block_on(st.key_storage().inner.count()),
@@ -493,17 +588,21 @@ fn err_name(e: &JwkStorageDocumentError) -> String {
 }
 fn frag_string(f: Fr) -> Option<&'static str> {
   const K: [&str; 10] = ["#k0", "#k1", "#k2", "#k3", "#k4", "#k5", "#k6", "#k7", "#k8", "#k9"];
+  const B: [&str; 10] = ["b0", "b1", "b2", "b3", "b4", "b5", "b6", "b7", "b8", "b9"];
   match f {
     Fr::Auto => None,
     Fr::Named(n) => Some(K[n as usize % 10]),
+    Fr::Bare(n) => Some(B[n as usize % 10]),
     Fr::Root => Some("#root"),
     Fr::Svc => Some("#svc"),
     Fr::Dangling => Some("#dangling"),
     Fr::Invalid => Some("#bad fragment\u{7f}<>"),
   }
 }
-fn fault_pattern(calls: &[(&'static str, bool)]) -> String {
-  let f: Vec<&str> = calls.iter().filter(|c| c.1).map(|c| c.0).collect();
+/// Failing calls of one operation: injected ones by label, native ones (the real store said Err) marked.
+fn fault_pattern(calls: &[(&'static str, bool)], native: &[&'static str]) -> String {
+  let mut f: Vec<String> = calls.iter().filter(|c| c.1).map(|c| c.0.to_string()).collect();
+  f.extend(native.iter().map(|l| format!("{l}(native)")));
   if f.is_empty() {
     "none".into()
   } else {
@@ -526,6 +625,7 @@ enum Res {
   Gen(Result<Result<String, JwkStorageDocumentError>, vx::Panicked>),
   Purge(Result<Result<(), JwkStorageDocumentError>, vx::Panicked>),
   Sign(Result<Result<Jws, JwkStorageDocumentError>, vx::Panicked>),
+  SignVc(Result<Result<String, JwkStorageDocumentError>, vx::Panicked>),
   Attach,
 }
 
@@ -547,6 +647,9 @@ impl<'a, 'c, 'p, D: TestDoc> Exec<'a, 'c, 'p, D> {
       Tg::Root => format!("{did}#root"),
       Tg::Undec => format!("{did}#undec"),
       Tg::Absent => format!("{did}#absent"),
+      Tg::Svc => format!("{did}#svc"),
+      Tg::Foreign(n) => format!("{}{}", D::other_did_str(), frag_string(Fr::Named(n)).unwrap()),
+      Tg::Alias(n) => format!("{did}#a{}", n % 10),
     }
   }
 
@@ -585,6 +688,53 @@ impl<'a, 'c, 'p, D: TestDoc> Exec<'a, 'c, 'p, D> {
         let doc = &self.doc;
         Res::Sign(guard(|| block_on(doc.create_jws(st, &frag, b"c09 payload", &JwsSignatureOptions::default()))))
       }
+      Op::SignVc { target, pres } => {
+        let id = self.target_id(target);
+        let frag = id.rsplit_once('#').map(|p| format!("#{}", p.1)).unwrap_or_default();
+        let doc = &self.doc;
+        let did = Url::parse(D::did_str()).expect("did is a url");
+        let o = JwsSignatureOptions::default();
+        if pres {
+          let p: Presentation<Jwt> = PresentationBuilder::new(did, Object::new())
+            .credential(Jwt::new("eyJhbGciOiJFZERTQSJ9.e30.c2ln".to_string()))
+            .build()
+            .expect("presentation");
+          Res::SignVc(guard(|| {
+            block_on(doc.create_presentation_jwt(&p, st, &frag, &o, &JwtPresentationOptions::default())).map(|j| j.as_str().to_string())
+          }))
+        } else {
+          let c: Credential = CredentialBuilder::default()
+            .id(Url::parse("https://example.edu/credentials/3732").unwrap())
+            .issuer(did)
+            .type_("UniversityDegreeCredential")
+            .subject(Subject::with_id(Url::parse("did:example:subject").unwrap()))
+            .issuance_date(vx::fx::ts(vx::fx::NOW))
+            .build()
+            .expect("credential");
+          Res::SignVc(guard(|| block_on(doc.create_credential_jwt(&c, st, &frag, &o, None)).map(|j| j.as_str().to_string())))
+        }
+      }
+      Op::Alias { from, to } => {
+        // harness-side (never armed): copy the method under a new fragment and record the copy's digest under the
+        // key id of the original, directly in the real key-id store.
+        let from_id = self.target_id(from);
+        let obs = observe(&self.doc, &self.st, &self.ctl);
+        let src = obs.methods.get(&from_id).map(|m| m.1.clone());
+        let key = obs.backing(&from_id).map(|b| b.1);
+        self.ctx.require(src.is_some() && key.is_some() && !self.ctl.armed.get(), "Alias: source method must be backed, faults off");
+        let mut v: Value = serde_json::from_str(&src.unwrap_or_default()).unwrap_or(Value::Null);
+        v["id"] = json!(self.target_id(Tg::Alias(to)));
+        let m = VerificationMethod::from_json_value(v).ok();
+        let d = m.as_ref().and_then(|m| MethodDigest::new(m).ok());
+        self.ctx.require(m.is_some() && d.is_some(), "Alias: copy of the method is a method with a digest");
+        if let (Some(m), Some(d), Some(k)) = (m, d, key) {
+          let ok = self.doc.insert(m, MethodScope::VerificationMethod)
+            && block_on(self.st.key_id_storage().inner.insert_key_id(d.clone(), KeyId::new(k))).is_ok();
+          self.ctx.require(ok, "Alias: insertion of the copy and of its key id");
+          self.ctl.saw(&d);
+        }
+        Res::Attach
+      }
     }
   }
 
@@ -611,29 +761,38 @@ impl<'a, 'c, 'p, D: TestDoc> Exec<'a, 'c, 'p, D> {
   fn step(&mut self, op: Op) -> bool {
     let before = observe(&self.doc, &self.st, &self.ctl);
     self.ctl.calls.borrow_mut().clear();
+    self.ctl.native.borrow_mut().clear();
     self.ctl.armed.set(true);
     let res = self.apply(op);
     self.ctl.armed.set(false);
     let calls = self.ctl.calls.borrow().clone();
+    let native = self.ctl.native.borrow().clone();
     let injected = calls.iter().any(|c| c.1);
-    let pat = fault_pattern(&calls);
+    // did ANY storage call of this operation fail (by injection or because the real store said so)?
+    let any_failed = injected || !native.is_empty();
+    let pat = fault_pattern(&calls, &native);
     let after = observe(&self.doc, &self.st, &self.ctl);
+    // never judged: what an IotaDocument carries besides the core document
+    let meta = if before.meta != after.meta { "+meta-changed(unjudged)" } else { "" };
     let did = D::did_str();
     let mut go_on = true;
     let label: String;
     match (op, res) {
-      (Op::Attach { .. }, _) | (_, Res::Attach) => {
+      (Op::Attach { .. }, _) | (Op::Alias { .. }, _) | (_, Res::Attach) => {
         label = format!("attach:{}", if before == after { "no-change" } else { "attached" });
       }
       // ------------------------------------------------------------------ generate_method
       (Op::Gen { scope, frag, kt }, Res::Gen(r)) => {
         let want_scope = scope_of(scope).1;
-        let req_id = frag_string(frag).map(|f| format!("{did}{f}"));
+        let req_id = frag_string(frag).map(|f| format!("{did}#{}", f.trim_start_matches('#')));
         let id_free = req_id
           .as_ref()
           .map(|i| !before.methods.contains_key(i) && !before.services.contains(i) && !before.ref_ids().contains(i))
           .unwrap_or(true);
-        let expect_ok = id_free && kt == Kt::Ed25519EdDsa && frag != Fr::Invalid;
+        // liveness is demanded on the baseline family only: supported key type, no fragment or a fresh "#name"
+        // (the form the API's own tests and examples use); a fragment without '#' is executed and judged in the
+        // safety direction only.
+        let expect_ok = id_free && kt == Kt::Ed25519EdDsa && matches!(frag, Fr::Auto | Fr::Named(_));
         // Not judged at all: the requested id is already carried by a relationship reference that points at no
         // method (a dangling self-reference). Such a document is outside the quantifier of the property (what
         // insert_method does with it is C04's business); executed and recorded only.
@@ -704,30 +863,35 @@ impl<'a, 'c, 'p, D: TestDoc> Exec<'a, 'c, 'p, D> {
               self.violation(&format!("generate_method|ok|{c}"), &format!("faults {pat}: {w}"));
             }
             go_on = bad.is_empty();
-            label = format!("gen:ok{}{}", if injected { "-despite-fault" } else { "" }, if bad.is_empty() { "" } else { "+INCOMPLETE" });
+            label = format!("gen:ok{}{}", if any_failed { "-despite-fault" } else { "" }, if bad.is_empty() { "" } else { "+INCOMPLETE" });
           }
-          Ok(Err(JwkStorageDocumentError::UndoOperationFailed { .. })) => {
-            label = format!("gen:undo-failed(exempt){}", if injected { "" } else { "-without-injected-fault" });
+          Ok(Err(JwkStorageDocumentError::UndoOperationFailed { .. })) if any_failed => {
+            label = "gen:undo-failed(exempt)".into();
             go_on = false;
           }
           Ok(Err(e)) => {
+            // incl. a failed-undo report although no storage call failed: there was no undo step that could have failed
+            let false_undo = matches!(e, JwkStorageDocumentError::UndoOperationFailed { .. });
             let name = err_name(&e);
             let d = diff(&before, &after);
-            let open = false;
             for c in &d {
-              self.violation(
-                &format!("generate_method|err-without-undo-report|{c}"),
-                &format!("faults {pat}: Err({name}) but the observable state changed: {c}"),
-              );
+              if false_undo {
+                self.violation(
+                  &format!("generate_method|undo-failure-reported-although-no-storage-call-failed|{c}"),
+                  &format!("Err({name}) and the observable state changed ({c}), but every storage call of the operation succeeded"),
+                );
+              } else {
+                self.violation(
+                  &format!("generate_method|err-without-undo-report|{c}"),
+                  &format!("faults {pat}: Err({name}) but the observable state changed: {c}"),
+                );
+              }
             }
-            if d.is_empty() && !injected && expect_ok {
+            if d.is_empty() && !any_failed && expect_ok {
               self.violation("generate_method|no-fault|unexpected-error", &format!("Err({name}) although no storage call failed"));
             }
-            go_on = d.is_empty() && !open;
-            label = format!(
-              "gen:err({name})+{}",
-              if open { "unjudged:dangling-self-reference-dropped" } else if d.is_empty() { "unchanged" } else { "CHANGED" }
-            );
+            go_on = d.is_empty() && !false_undo;
+            label = format!("gen:err({name}){}+{}", if false_undo { "-without-failed-call" } else { "" }, if d.is_empty() { "unchanged" } else { "CHANGED" });
           }
         }
       }
@@ -741,12 +905,23 @@ impl<'a, 'c, 'p, D: TestDoc> Exec<'a, 'c, 'p, D> {
             label = "purge:panic".into();
             go_on = false;
           }
+          Ok(Ok(())) if !before.methods.contains_key(&id) => {
+            // The statement does not say what a purge of a method the document does not contain returns; Ok is
+            // recorded, and then nothing whatsoever may have changed.
+            let d = diff(&before, &after);
+            for c in &d {
+              self.violation(
+                &format!("purge_method|ok-for-absent-method|{c}"),
+                &format!("faults {pat}: Ok for {id}, which the document does not contain, and the observable state changed: {c}"),
+              );
+            }
+            go_on = d.is_empty();
+            label = format!("purge:ok-for-absent-method(unjudged){}", if d.is_empty() { "" } else { "+CHANGED" });
+          }
           Ok(Ok(())) => {
             let mut bad: Vec<(&str, String)> = Vec::new();
             let mut expected = before.clone();
-            if expected.methods.remove(&id).is_none() {
-              bad.push(("method-was-absent", format!("Ok for {id} which the document does not contain")));
-            }
+            let removed = expected.methods.remove(&id);
             expected.refs.retain(|r| r.1 != id);
             match &backing {
               Some((d, k)) => {
@@ -755,7 +930,18 @@ impl<'a, 'c, 'p, D: TestDoc> Exec<'a, 'c, 'p, D> {
                 expected.keyids.remove(d);
                 expected.keyid_count -= 1;
               }
-              None => bad.push(("method-was-not-backed", format!("Ok for {id} which has no key id / key in the stores"))),
+              None => {
+                // Not a storage-backed method (no key id, or a key id naming no live key): whether its purge is
+                // Ok is left open by the statement. Method and references must be gone, a key-id entry of the
+                // method may be gone, nothing else may be touched.
+                let dh = removed.as_ref().and_then(|m| digest_of_json(&m.1)).map(|d| hex(&d.pack()));
+                if let Some(dh) = dh {
+                  if expected.keyids.contains_key(&dh) && !after.keyids.contains_key(&dh) {
+                    expected.keyids.remove(&dh);
+                    expected.keyid_count -= 1;
+                  }
+                }
+              }
             }
             if after.methods.contains_key(&id) || DIDUrl::parse(&id).map(|u| self.doc.resolves(&u, None)).unwrap_or(false) {
               bad.push(("method-still-present", id.clone()));
@@ -780,13 +966,19 @@ impl<'a, 'c, 'p, D: TestDoc> Exec<'a, 'c, 'p, D> {
               self.violation(&format!("purge_method|ok|{c}"), &format!("faults {pat}: {w}"));
             }
             go_on = bad.is_empty();
-            label = format!("purge:ok{}{}", if injected { "-despite-fault" } else { "" }, if bad.is_empty() { "" } else { "+INCOMPLETE" });
+            label = format!(
+              "purge:ok{}{}{}",
+              if backing.is_none() { "-not-storage-backed(unjudged)" } else { "" },
+              if any_failed { "-despite-fault" } else { "" },
+              if bad.is_empty() { "" } else { "+INCOMPLETE" }
+            );
           }
-          Ok(Err(JwkStorageDocumentError::UndoOperationFailed { .. })) => {
-            label = format!("purge:undo-failed(exempt){}", if injected { "" } else { "-without-injected-fault" });
+          Ok(Err(JwkStorageDocumentError::UndoOperationFailed { .. })) if any_failed => {
+            label = "purge:undo-failed(exempt)".into();
             go_on = false;
           }
           Ok(Err(e)) => {
+            let false_undo = matches!(e, JwkStorageDocumentError::UndoOperationFailed { .. });
             let name = err_name(&e);
             let d = diff(&before, &after);
             let nrefs = before.refs.iter().filter(|r| r.1 == id).count();
@@ -796,23 +988,34 @@ impl<'a, 'c, 'p, D: TestDoc> Exec<'a, 'c, 'p, D> {
               Some((s, _)) => format!("method embedded in {s}"),
             };
             for c in &d {
-              self.violation(
-                &format!("purge_method|err-without-undo-report|{c}"),
-                &format!("purge of a {shape}, failing calls {pat}: Err({name}) but the observable state changed: {c}"),
-              );
+              if false_undo {
+                self.violation(
+                  &format!("purge_method|undo-failure-reported-although-no-storage-call-failed|{c}"),
+                  &format!("purge of a {shape}: Err({name}) and the observable state changed ({c}), but every storage call of the operation succeeded"),
+                );
+              } else {
+                self.violation(
+                  &format!("purge_method|err-without-undo-report|{c}"),
+                  &format!("purge of a {shape}, failing calls {pat}: Err({name}) but the observable state changed: {c}"),
+                );
+              }
             }
-            if d.is_empty() && !injected && backing.is_some() {
+            if d.is_empty() && !any_failed && backing.is_some() {
               self.violation("purge_method|no-fault|unexpected-error", &format!("Err({name}) although no storage call failed"));
             }
-            go_on = d.is_empty();
-            label = format!("purge:err({name})+{}", if d.is_empty() { "unchanged" } else { "CHANGED" });
+            go_on = d.is_empty() && !false_undo;
+            label = format!("purge:err({name}){}+{}", if false_undo { "-without-failed-call" } else { "" }, if d.is_empty() { "unchanged" } else { "CHANGED" });
           }
         }
       }
       // ------------------------------------------------------------------ create_jws
+      // The property is about generate / purge. What it says about signing: it works for a storage-backed method
+      // (judged when no storage call failed), and - create_jws takes the document by shared reference and has no
+      // business writing to the stores - the observable state is the same afterwards whatever the outcome.
+      // Everything else under faults is recorded only.
       (Op::Sign { target }, Res::Sign(r)) => {
         let id = self.target_id(target);
-        let backed = before.backing(&id).is_some();
+        let judged = before.backing(&id).is_some() && !any_failed;
         let changed = diff(&before, &after);
         for c in &changed {
           self.violation(&format!("create_jws|state-changed|{c}"), &format!("faults {pat}"));
@@ -820,21 +1023,28 @@ impl<'a, 'c, 'p, D: TestDoc> Exec<'a, 'c, 'p, D> {
         go_on = changed.is_empty();
         match r {
           Err(p) => {
-            self.violation(&format!("create_jws|{}", p.key()), &format!("faults {pat}: {}", p.msg));
-            label = "sign:panic".into();
+            if judged {
+              self.violation(&format!("create_jws|{}", p.key()), &format!("no storage call failed: {}", p.msg));
+            }
+            label = format!("sign:panic{}", if judged { "" } else { "(unjudged)" });
             go_on = false;
           }
           Ok(Ok(jws)) => {
             let v = guard(|| self.doc.verify(&jws));
-            if !matches!(v, Ok(Ok(()))) {
-              self.violation("create_jws|ok|signature-does-not-verify", &format!("faults {pat}: {v:?}"));
+            let verifies = matches!(v, Ok(Ok(())));
+            if !verifies && judged {
+              self.violation("create_jws|ok|signature-does-not-verify", &format!("no storage call failed: {v:?}"));
               go_on = false;
             }
-            label = format!("sign:ok{}", if injected { "-despite-fault" } else { "" });
+            label = format!(
+              "sign:ok{}{}",
+              if any_failed { "-despite-fault" } else { "" },
+              if verifies { "" } else if judged { "+NOT-VERIFYING" } else { "+not-verifying(unjudged)" }
+            );
           }
           Ok(Err(e)) => {
             let name = err_name(&e);
-            if backed && !injected {
+            if judged {
               self.violation("create_jws|no-fault|unexpected-error", &format!("Err({name}) for a backed method although no storage call failed"));
               go_on = false;
             }
@@ -842,9 +1052,27 @@ impl<'a, 'c, 'p, D: TestDoc> Exec<'a, 'c, 'p, D> {
           }
         }
       }
+      // ------------------------------------------------------------------ create_credential_jwt / create_presentation_jwt
+      // judged: observable state unchanged. Outcome recorded.
+      (Op::SignVc { pres, .. }, Res::SignVc(r)) => {
+        let entry = if pres { "create_presentation_jwt" } else { "create_credential_jwt" };
+        let changed = diff(&before, &after);
+        for c in &changed {
+          self.violation(&format!("{entry}|state-changed|{c}"), &format!("faults {pat}"));
+        }
+        go_on = changed.is_empty();
+        label = match r {
+          Err(_) => {
+            go_on = false;
+            format!("{entry}:panic(unjudged)")
+          }
+          Ok(Ok(_)) => format!("{entry}:ok{}", if any_failed { "-despite-fault" } else { "" }),
+          Ok(Err(e)) => format!("{entry}:err({})", err_name(&e)),
+        };
+      }
       _ => unreachable!("result kind matches operation kind"),
     }
-    *self.hist.entry(format!("{label}|faults={pat}")).or_insert(0) += 1;
+    *self.hist.entry(format!("{label}{meta}|faults={pat}")).or_insert(0) += 1;
     go_on
   }
 }
@@ -854,9 +1082,12 @@ fn run<D: TestDoc>(ctx: &Ctx, scn: &Scenario, ch: &mut Chooser) -> (usize, bool)
   let ctl = Rc::new(Ctl {
     ch: RefCell::new(ch),
     armed: Cell::new(false),
+    kind: scn.kind,
     calls: RefCell::new(Vec::new()),
+    native: RefCell::new(Vec::new()),
     issued: RefCell::new(Vec::new()),
     digests: RefCell::new(Vec::new()),
+    stats: RefCell::new(BTreeMap::new()),
   });
   let st = Storage::new(
     FaultyJwk { inner: JwkMemStore::new(), ctl: ctl.clone() },
@@ -865,7 +1096,7 @@ fn run<D: TestDoc>(ctx: &Ctx, scn: &Scenario, ch: &mut Chooser) -> (usize, bool)
   let mut ex = Exec { ctx, scn, ctl, st, doc: D::build(scn.base), auto: None, hist: BTreeMap::new() };
   for op in &scn.setup {
     let ok = match ex.apply(*op) {
-      Res::Gen(Ok(Ok(_))) | Res::Purge(Ok(Ok(()))) | Res::Sign(Ok(Ok(_))) | Res::Attach => true,
+      Res::Gen(Ok(Ok(_))) | Res::Purge(Ok(Ok(()))) | Res::Sign(Ok(Ok(_))) | Res::SignVc(Ok(Ok(_))) | Res::Attach => true,
       _ => false,
     };
     ctx.require(ok, &format!("setup step {op:?} of scenario {scn:?} failed"));
@@ -882,8 +1113,9 @@ fn run<D: TestDoc>(ctx: &Ctx, scn: &Scenario, ch: &mut Chooser) -> (usize, bool)
     }
   }
   // final state of an execution that ended inside the property's domain: every backed method is usable,
-  // no key without key id, no key id without key.
-  if complete {
+  // no key without key id, no key id without key. (Off where the harness itself made two methods share a key id.)
+  let shared_key_id = scn.setup.iter().any(|o| matches!(o, Op::Alias { .. }));
+  if complete && !shared_key_id {
     let obs = observe(&ex.doc, &ex.st, &ex.ctl);
     let mut mapped = BTreeSet::new();
     for (id, (_, mj)) in &obs.methods {
@@ -905,6 +1137,15 @@ fn run<D: TestDoc>(ctx: &Ctx, scn: &Scenario, ch: &mut Chooser) -> (usize, bool)
   }
   labels.extend(ex.hist.keys().cloned());
   ctx.outcomes_merge(&ex.hist);
+  {
+    let mut g = CALL_STATS.lock().unwrap();
+    for (l, (c, i, n)) in ex.ctl.stats.borrow().iter() {
+      let e = g.entry(*l).or_insert((0, 0, 0));
+      e.0 += c;
+      e.1 += i;
+      e.2 += n;
+    }
+  }
   ctx.distinct(&(scn, &labels));
   (done, complete)
 }
@@ -928,37 +1169,39 @@ fn gen(scope: Scp, frag: Fr) -> Op {
   Op::Gen { scope, frag, kt: Kt::Ed25519EdDsa }
 }
 
-/// (name, scenario) of part (A) for one document kind.
-fn single_op_scenarios(doc: DocKind) -> Vec<(String, Scenario)> {
+/// (name, scenario) of part (A) for one document kind and one injected error kind.
+fn single_op_scenarios(doc: DocKind, kind: u8) -> Vec<(String, Scenario)> {
   let mut v = Vec::new();
   // a storage-backed bystander (general method #k9 referenced from authentication) is part of every document
   let by = vec![gen(Scp::Vm, Fr::Named(9)), Op::Attach { target: Tg::Named(9), rel: 0 }];
-  let mk = |base: u8, extra: Vec<Op>, op: Op| {
+  let mk = |base: u8, extra: Vec<Op>, ops: Vec<Op>| {
     let mut setup = by.clone();
     setup.extend(extra);
-    Scenario { doc, base, setup, ops: vec![op] }
+    Scenario { doc, base, setup, ops, kind }
   };
-  for scope in [Scp::Vm, Scp::Auth, Scp::Assert] {
+  const ALL_SCOPES: [Scp; 6] = [Scp::Vm, Scp::Auth, Scp::Assert, Scp::KeyAgr, Scp::CapDel, Scp::CapInv];
+  for scope in ALL_SCOPES {
     for (fname, frag) in [
       ("none", Fr::Auto),
       ("fresh", Fr::Named(0)),
+      ("fresh-without-hash", Fr::Bare(0)),
       ("used-by-backed-general-method", Fr::Named(9)),
       ("used-by-unbacked-general-method", Fr::Root),
       ("used-by-service", Fr::Svc),
       ("invalid", Fr::Invalid),
     ] {
-      v.push((format!("generate scope={scope:?} fragment={fname}"), mk(0, vec![], gen(scope, frag))));
+      v.push((format!("generate scope={scope:?} fragment={fname}"), mk(0, vec![], vec![gen(scope, frag)])));
     }
   }
   for scope in [Scp::Vm, Scp::Auth] {
     v.push((
       format!("generate scope={scope:?} fragment=used-by-embedded-method"),
-      mk(0, vec![gen(Scp::Auth, Fr::Named(8))], gen(scope, Fr::Named(8))),
+      mk(0, vec![gen(Scp::Auth, Fr::Named(8))], vec![gen(scope, Fr::Named(8))]),
     ));
-    v.push((format!("generate scope={scope:?} fragment=carried-by-dangling-reference"), mk(2, vec![], gen(scope, Fr::Dangling))));
+    v.push((format!("generate scope={scope:?} fragment=carried-by-dangling-reference"), mk(2, vec![], vec![gen(scope, Fr::Dangling)])));
   }
   for kt in [Kt::Ed25519Es256, Kt::Bogus] {
-    v.push((format!("generate scope=Vm fragment=fresh keytype={kt:?}"), mk(0, vec![], Op::Gen { scope: Scp::Vm, frag: Fr::Named(0), kt })));
+    v.push((format!("generate scope=Vm fragment=fresh keytype={kt:?}"), mk(0, vec![], vec![Op::Gen { scope: Scp::Vm, frag: Fr::Named(0), kt }])));
   }
   // purge
   for refs in [0u8, 1, 2, 5] {
@@ -967,17 +1210,53 @@ fn single_op_scenarios(doc: DocKind) -> Vec<(String, Scenario)> {
       // relationship 0 (authentication) first, then assertionMethod, ...
       extra.push(Op::Attach { target: Tg::Named(0), rel: r });
     }
-    v.push((format!("purge general method with {refs} reference(s)"), mk(0, extra, Op::Purge { target: Tg::Named(0) })));
+    v.push((format!("purge general method with {refs} reference(s)"), mk(0, extra, vec![Op::Purge { target: Tg::Named(0) }])));
   }
   v.push((
     "purge general method (kid fragment) with 1 reference".into(),
-    mk(0, vec![gen(Scp::Vm, Fr::Auto), Op::Attach { target: Tg::Auto, rel: 1 }], Op::Purge { target: Tg::Auto }),
+    mk(0, vec![gen(Scp::Vm, Fr::Auto), Op::Attach { target: Tg::Auto, rel: 1 }], vec![Op::Purge { target: Tg::Auto }]),
   ));
-  v.push(("purge method embedded in authentication".into(), mk(0, vec![gen(Scp::Auth, Fr::Named(0))], Op::Purge { target: Tg::Named(0) })));
-  v.push(("purge method embedded in assertionMethod".into(), mk(0, vec![gen(Scp::Assert, Fr::Named(0))], Op::Purge { target: Tg::Named(0) })));
-  v.push(("purge absent method".into(), mk(0, vec![], Op::Purge { target: Tg::Absent })));
-  v.push(("purge unbacked general method with 1 reference".into(), mk(0, vec![], Op::Purge { target: Tg::Root })));
-  v.push(("purge general method with undecodable key data and 1 reference".into(), mk(1, vec![], Op::Purge { target: Tg::Undec })));
+  for scope in &ALL_SCOPES[1..] {
+    let name = scope_of(*scope).1;
+    v.push((format!("purge method embedded in {name}"), mk(0, vec![gen(*scope, Fr::Named(0))], vec![Op::Purge { target: Tg::Named(0) }])));
+  }
+  // an embedded method that is neither the first nor the last entry of its relationship (which also holds references)
+  v.push((
+    "purge method embedded in authentication between other entries".into(),
+    mk(
+      0,
+      vec![gen(Scp::Auth, Fr::Named(1)), gen(Scp::Auth, Fr::Named(0)), gen(Scp::Auth, Fr::Named(2))],
+      vec![Op::Purge { target: Tg::Named(0) }],
+    ),
+  ));
+  v.push(("purge absent method".into(), mk(0, vec![], vec![Op::Purge { target: Tg::Absent }])));
+  v.push(("purge unbacked general method with 1 reference".into(), mk(0, vec![], vec![Op::Purge { target: Tg::Root }])));
+  v.push(("purge general method with undecodable key data and 1 reference".into(), mk(1, vec![], vec![Op::Purge { target: Tg::Undec }])));
+  // ids that name something else than a method of this document
+  v.push(("purge the id of a service".into(), mk(0, vec![gen(Scp::Vm, Fr::Named(0))], vec![Op::Purge { target: Tg::Svc }])));
+  v.push((
+    "purge the same fragment under another DID".into(),
+    mk(0, vec![gen(Scp::Vm, Fr::Named(0)), Op::Attach { target: Tg::Named(0), rel: 0 }], vec![Op::Purge { target: Tg::Foreign(0) }]),
+  ));
+  // two methods sharing one key id (made by the harness; per-operation oracles only)
+  let shared = vec![gen(Scp::Vm, Fr::Named(0)), Op::Attach { target: Tg::Named(0), rel: 1 }, Op::Alias { from: Tg::Named(0), to: 0 }, Op::Attach { target: Tg::Alias(0), rel: 2 }];
+  v.push(("shared key id: purge the original".into(), mk(0, shared.clone(), vec![Op::Purge { target: Tg::Named(0) }])));
+  v.push(("shared key id: purge the copy".into(), mk(0, shared.clone(), vec![Op::Purge { target: Tg::Alias(0) }])));
+  v.push((
+    "shared key id: purge the original, then the copy (its key is gone: K.delete fails natively)".into(),
+    mk(0, shared.clone(), vec![Op::Purge { target: Tg::Named(0) }, Op::Purge { target: Tg::Alias(0) }]),
+  ));
+  v.push((
+    "shared key id: purge the copy, then sign with the original".into(),
+    mk(0, shared, vec![Op::Purge { target: Tg::Alias(0) }, Op::Sign { target: Tg::Named(0) }]),
+  ));
+  // signing entry points under faults (judged: state unchanged; create_jws without a failing call: works)
+  for (tname, target) in [("backed general method", Tg::Named(0)), ("unbacked method", Tg::Root)] {
+    let setup = vec![gen(Scp::Vm, Fr::Named(0))];
+    v.push((format!("create_jws with a {tname}"), mk(0, setup.clone(), vec![Op::Sign { target }])));
+    v.push((format!("create_credential_jwt with a {tname}"), mk(0, setup.clone(), vec![Op::SignVc { target, pres: false }])));
+    v.push((format!("create_presentation_jwt with a {tname}"), mk(0, setup, vec![Op::SignVc { target, pres: true }])));
+  }
   v
 }
 
@@ -998,6 +1277,19 @@ const CYCLE_ALPHABET: [Op; 4] = [
   Op::Attach { target: Tg::Named(0), rel: 0 },
   Op::Purge { target: Tg::Named(0) },
   Op::Sign { target: Tg::Named(0) },
+];
+
+/// (D): one fragment generated embedded or general (clash when both), a kid-named embedded method, a reference,
+/// purges by own id / by the same fragment under another DID, credential signing.
+const MIX_ALPHABET: [Op; 8] = [
+  Op::Gen { scope: Scp::Auth, frag: Fr::Named(0), kt: Kt::Ed25519EdDsa },
+  Op::Gen { scope: Scp::Vm, frag: Fr::Named(0), kt: Kt::Ed25519EdDsa },
+  Op::Gen { scope: Scp::CapInv, frag: Fr::Auto, kt: Kt::Ed25519EdDsa },
+  Op::Attach { target: Tg::Named(0), rel: 2 },
+  Op::Purge { target: Tg::Named(0) },
+  Op::Purge { target: Tg::Auto },
+  Op::Purge { target: Tg::Foreign(0) },
+  Op::SignVc { target: Tg::Named(0), pres: false },
 ];
 
 #[derive(Default)]
@@ -1043,47 +1335,81 @@ impl Agg {
 }
 
 fn generate(ctx: &Ctx) {
-  ctx.rule("every scenario is executed once per subset of failing storage-call occurrences (E1 explorer, bound None; choice points = calls actually made, discovered dynamically, incl. undo calls). (A) 34 single-operation scenarios x {CoreDocument, IotaDocument}; (B) all operation sequences up to the tier's length over an 8-letter alphabet x both document kinds, faults anywhere in the history; (C) the same over a 4-letter single-method life-cycle alphabet, deeper. distinct_nontrivial = distinct (scenario, set of per-operation outcome+fault-pattern labels)");
+  ctx.rule("every scenario is executed once per subset of failing storage-call occurrences (E1 explorer, bound None; choice points = calls actually made, discovered dynamically, incl. undo calls). (A) single-operation scenarios (see bounds) x 3 injected error kinds x {CoreDocument, IotaDocument}; (B) all operation sequences up to the tier's length over an 8-letter alphabet x both document kinds, faults anywhere in the history; (C) the same over a 4-letter single-method life-cycle alphabet, deeper; (D) the same over a second 8-letter alphabet (see bounds). distinct_nontrivial = distinct (scenario, set of per-operation outcome+fault-pattern labels)");
   ctx.assume("JwkMemStore / KeyIdMemstore are the backing stores (their own contract is C15); a fault = the wrapper returns the trait error (kind Unavailable) WITHOUT touching the store; torn operations (effect + error) are not modelled");
-  ctx.assume("K.insert and K.exists are choice points of the wrapper as well, but generate_method / purge_method / create_jws never call them");
+  ctx.assume("JwkStorage::insert and JwkStorage::exists are fault points of the wrapper as well; on this tree no storage-backed document API (generate_method, purge_method, create_jws, create_credential_jwt, create_presentation_jwt, their undo paths) calls them - see part 'storage calls met while armed' for the measured call counts; they become live as soon as a change makes an undo path call them");
+  ctx.assume("generate_method_jwp / the JwpDocumentExt entry points (feature jpt-bbs-plus) are NOT built into the harness and not executed; generate_method_jwp instantiates the same macro body (generate_method_for_document_type!) and the same try_undo_key_generation as generate_method, only the key-generation call (generate_bbs) differs");
+  ctx.assume("injected error kinds: Unavailable, Unspecified, RetryableIOFailure; KeyNotFound / KeyIdNotFound / KeyIdAlreadyExists are never injected (they are statements about the store's content which a caller may act on); they occur natively where the real store produces them");
   ctx.assume("observation: document JSON (method arrays compared as sets), JwkStorage::exists of every key id ever issued + count(), KeyIdStorage::get_key_id of every digest ever seen or derivable from a document method + count()");
 
   // ---------------------------------------------------------------- (A)
+  const KINDS: [&str; 3] = ["Unavailable", "Unspecified", "RetryableIOFailure"];
+  let mut n_single = 0;
   for doc in [DocKind::Core, DocKind::Iota] {
     let mut agg = Agg { whole: true, ..Default::default() };
     let mut table = serde_json::Map::new();
-    for (name, scn) in single_op_scenarios(doc) {
-      let first = Mutex::new(None::<Case>);
-      let st = choice::explore(None, |ch| {
-        run_kind(ctx, &scn, ch);
-        if ch.deviations() == 1 {
-          let mut f = first.lock().unwrap();
-          let seq = ch.seq();
-          if f.as_ref().map(|c| seq < c.faults).unwrap_or(true) {
-            *f = Some(Case { scn: scn.clone(), faults: seq });
+    for kind in 0..KINDS.len() as u8 {
+      let scenarios = single_op_scenarios(doc, kind);
+      n_single = scenarios.len();
+      for (name, scn) in scenarios {
+        let first = Mutex::new(None::<Case>);
+        let st = choice::explore(None, |ch| {
+          run_kind(ctx, &scn, ch);
+          if ch.deviations() == 1 {
+            let mut f = first.lock().unwrap();
+            let seq = ch.seq();
+            if f.as_ref().map(|c| seq < c.faults).unwrap_or(true) {
+              *f = Some(Case { scn: scn.clone(), faults: seq });
+            }
           }
+        });
+        if kind == 0 {
+          if let Some(c) = first.lock().unwrap().take() {
+            ctx.sample(&format!("single-op {doc:?}"), &c);
+          }
+          table.insert(name, json!({"executions": st.executions, "max_call_occurrences": st.max_depth, "by_failing_calls": st.by_deviation[..5]}));
         }
-      });
-      if let Some(c) = first.lock().unwrap().take() {
-        ctx.sample(&format!("single-op {doc:?}"), &c);
+        agg.add(&st);
       }
-      agg.add(&st);
-      table.insert(name, json!({"executions": st.executions, "max_call_occurrences": st.max_depth, "by_failing_calls": st.by_deviation[..5]}));
     }
-    agg.account(ctx, &format!("(A) single operation, {doc:?}Document"), Value::Object(table));
+    agg.account(ctx, &format!("(A) single operation, {doc:?}Document, x 3 injected error kinds (detail: kind Unavailable)"), Value::Object(table));
   }
+  ctx.bound("single_operation_scenarios_per_document_kind_and_error_kind", n_single);
+  ctx.bound("injected_error_kinds", KINDS);
 
   // ---------------------------------------------------------------- (B), (C)
-  let max_len = ctx.by_tier(3usize, 4usize);
+  let max_len = ctx.by_tier(4usize, 5usize);
   histories(ctx, "(B) histories", &ALPHABET, max_len);
-  let cyc_len = ctx.by_tier(4usize, 6usize);
+  let cyc_len = ctx.by_tier(5usize, 6usize);
   histories(ctx, "(C) generate/attach/purge/sign cycles on one method", &CYCLE_ALPHABET, cyc_len);
+  let mix_len = ctx.by_tier(3usize, 4usize);
+  histories(ctx, "(D) histories: embedded/general clash, kid fragment, foreign-DID purge, credential signing", &MIX_ALPHABET, mix_len);
+  ctx.bound("mix_history_length", mix_len);
+  ctx.bound("mix_history_alphabet", MIX_ALPHABET.iter().map(|o| format!("{o:?}")).collect::<Vec<_>>());
   ctx.bound("fault_subsets", "all (deviation bound None)");
   ctx.bound("history_length", max_len);
   ctx.bound("history_alphabet", ALPHABET.iter().map(|o| format!("{o:?}")).collect::<Vec<_>>());
   ctx.bound("cycle_length", cyc_len);
   ctx.bound("cycle_alphabet", CYCLE_ALPHABET.iter().map(|o| format!("{o:?}")).collect::<Vec<_>>());
   ctx.bound("references_on_purged_method", [0, 1, 2, 5]);
+  // which storage calls were met at all, and how often they failed: a fault point with 0 calls is dead on this tree
+  let stats: BTreeMap<String, Value> = {
+    let g = CALL_STATS.lock().unwrap();
+    ["K.generate", "K.insert", "K.sign", "K.delete", "K.exists", "I.insert_key_id", "I.get_key_id", "I.delete_key_id"]
+      .iter()
+      .map(|l| {
+        let (c, i, n) = g.get(l).copied().unwrap_or((0, 0, 0));
+        (l.to_string(), json!({"call_occurrences_while_armed": c, "failed_by_injection": i, "failed_natively": n}))
+      })
+      .collect()
+  };
+  for l in ["K.generate", "K.sign", "K.delete", "I.insert_key_id", "I.get_key_id", "I.delete_key_id"] {
+    ctx.require(
+      stats[l]["failed_by_injection"].as_u64().unwrap_or(0) > 0,
+      &format!("vacuous run: no fault was ever injected into {l} (the API under test no longer calls it?)"),
+    );
+  }
+  ctx.part("storage calls met while armed (fault points)", json!(stats));
 }
 
 /// Every sequence of length 1..=max_len over `alphabet`, on both document kinds, every fault subset each.
@@ -1107,7 +1433,7 @@ fn histories(ctx: &Ctx, part: &str, alphabet: &[Op], max_len: usize) {
     let per_len = Mutex::new(BTreeMap::<usize, (u64, u64)>::new());
     let sample_seq = &seqs[seqs.len() / 2];
     seqs.par_iter().for_each(|ops| {
-      let scn = Scenario { doc, base: 0, setup: vec![], ops: ops.clone() };
+      let scn = Scenario { doc, base: 0, setup: vec![], ops: ops.clone(), kind: 0 };
       let first = Mutex::new(None::<Case>);
       let st = choice::explore(None, |ch| {
         run_kind(ctx, &scn, ch);
